@@ -78,6 +78,9 @@ pub struct Scenario {
 	pub send: [Vec<Msg>; 2],
 	/// Default maximum size of one `read_event` (0 = everything in flight).
 	pub chunk: usize,
+	/// Side s queues its messages only after having handled this many messages from the peer
+	/// (0 = as soon as the peer's Init was processed).
+	pub release_after: [usize; 2],
 }
 
 impl Scenario {
@@ -85,13 +88,15 @@ impl Scenario {
 		json!({
 			"name": self.name,
 			"chunk": self.chunk,
+			"release_after": [self.release_after[0], self.release_after[1]],
 			"send_a": self.send[0].iter().map(|m| m.to_json()).collect::<Vec<_>>(),
 			"send_b": self.send[1].iter().map(|m| m.to_json()).collect::<Vec<_>>(),
 		})
 	}
 	pub fn from_json(v: &Value) -> Option<Scenario> {
 		let q = |k: &str| -> Option<Vec<Msg>> { v.get(k)?.as_array()?.iter().map(Msg::from_json).collect() };
-		Some(Scenario { name: v.get("name")?.as_str()?.to_string(), chunk: v.get("chunk")?.as_u64()? as usize, send: [q("send_a")?, q("send_b")?] })
+		let ra = |i: usize| v.get("release_after").and_then(|r| r.get(i)).and_then(|x| x.as_u64()).unwrap_or(0) as usize;
+		Some(Scenario { name: v.get("name")?.as_str()?.to_string(), chunk: v.get("chunk")?.as_u64()? as usize, send: [q("send_a")?, q("send_b")?], release_after: [ra(0), ra(1)] })
 	}
 }
 
@@ -393,7 +398,10 @@ impl<'a> Driver<'a> {
 pub fn run(scn: &Scenario, devs: &[Dev], collect_states: bool) -> Result<Trace, Failure> {
 	let obs = Arc::new(Mutex::new(Obs::default()));
 	let wire = Arc::new(Mutex::new(Wire::default()));
-	let nodes = [Node::new(0, node_pubkey(0), obs.clone(), scn.send[0].clone()), Node::new(1, node_pubkey(1), obs.clone(), scn.send[1].clone())];
+	let nodes = [
+		Node::new_released_after(0, node_pubkey(0), obs.clone(), scn.send[0].clone(), scn.release_after[0]),
+		Node::new_released_after(1, node_pubkey(1), obs.clone(), scn.send[1].clone(), scn.release_after[1]),
+	];
 	let pm = [make_pm(0, &nodes[0]), make_pm(1, &nodes[1])];
 	let sock = [Sock { side: 0, wire: wire.clone() }, Sock { side: 1, wire: wire.clone() }];
 	{
